@@ -312,9 +312,12 @@ theorem spec_exec_sound (D : List BlockAbs) (X : List Hash) (fuel : Nat) (h : Ha
     (hw : chainWork D X fuel h = some w) : ValidChainEx D X h w :=
   chainWork_sound D X fuel h w hw
 
-/-! ### 6. pinned constants -/
+/-! ### 6. pinned constants
 
-theorem pin_maxOrphans : Generated.C02.maxOrphanBlocks = (maxOrphans : Int) := by decide
+Only format-level constants are pinned: the five `blockStatus` bits are written to the block index
+bucket (dbStoreBlockNode). The orphan-pool bound, the numeric values of `TipStatus` and of the
+notification types are internal and deliberately NOT pinned: the driver reads the bound from the tree on
+every run and the harness compares tip statuses / notifications through the exported constants. -/
 
 theorem pin_status_bits :
     Generated.C02.statusDataStored = 1 ∧ Generated.C02.statusValid = 2 ∧ Generated.C02.statusValidateFailed = 4 ∧
@@ -327,14 +330,6 @@ theorem pin_status_byte :
     (Status.toByte { failed := true } : Int) = Generated.C02.statusValidateFailed ∧
     (Status.toByte { invalidAnc := true } : Int) = Generated.C02.statusInvalidAncestor ∧
     (Status.toByte { header := true } : Int) = Generated.C02.statusHeaderStored := by decide
-
-theorem pin_tip_status :
-    Generated.C02.tipStatusUnknown = 0 ∧ Generated.C02.tipStatusActive = 1 ∧
-    Generated.C02.tipStatusInvalid = 2 ∧ Generated.C02.tipStatusValidFork = 3 := by decide
-
-theorem pin_notifications :
-    Generated.C02.ntBlockAccepted = 0 ∧ Generated.C02.ntBlockConnected = 1 ∧
-    Generated.C02.ntBlockDisconnected = 2 := by decide
 
 /-! ### 7. the hypotheses are satisfiable -/
 
